@@ -250,8 +250,34 @@ func tidy(ctx context.Context, fsys fs.FS, modRoot string, reg Registry, opts *T
 	return res, nil
 }
 
+// maxTidyPasses bounds the number of passes tidyOnce makes before giving up
+// on requirements that keep changing.
+const maxTidyPasses = 10
+
 // tidyOnce resolves and tidies a single dependency graph.
+//
+// Tidying changes the set of root requirements, which in turn can change
+// how imports resolve: a module that is no longer a root stops contributing
+// its own requirements to the pruned module graph, and a newly added root can
+// make an implied default major version ambiguous. So the result of a pass is
+// fed back in until a pass leaves the requirements unchanged; only then is the
+// result known to satisfy every import and to be left alone by the next tidy.
 func (ld *loader) tidyOnce(ctx context.Context, rootPkgPaths []string, origRs *modrequirements.Requirements) (*modrequirements.Requirements, error) {
+	for range maxTidyPasses {
+		rs, err := ld.tidyPass(ctx, rootPkgPaths, origRs)
+		if err != nil {
+			return nil, err
+		}
+		if ld.checkTidy || equalRequirements(origRs, rs) {
+			return rs, nil
+		}
+		origRs = rs
+	}
+	return nil, fmt.Errorf("cannot tidy requirements: no stable set of requirements found after %d passes", maxTidyPasses)
+}
+
+// tidyPass makes a single pass of resolving and tidying a dependency graph.
+func (ld *loader) tidyPass(ctx context.Context, rootPkgPaths []string, origRs *modrequirements.Requirements) (*modrequirements.Requirements, error) {
 	rs, pkgs, err := ld.resolveDependencies(ctx, rootPkgPaths, origRs)
 	if err != nil {
 		return nil, err
@@ -501,8 +527,10 @@ func equalRequirements(rs0, rs1 *modrequirements.Requirements) bool {
 	// In such a case we want to skip over the local module when comparing,
 	// just like modfileFromRequirements does when filling [modfile.File.Deps].
 	// Note that we clone the slice to not modify rs1's internal slice in-place.
+	// The same holds for rs0 when it is itself the result of a tidy pass.
+	rs0RootMods := slices.DeleteFunc(slices.Clone(rs0.RootModules()), module.Version.IsLocal)
 	rs1RootMods := slices.DeleteFunc(slices.Clone(rs1.RootModules()), module.Version.IsLocal)
-	return slices.Equal(rs0.RootModules(), rs1RootMods) &&
+	return slices.Equal(rs0RootMods, rs1RootMods) &&
 		maps.Equal(rs0.DefaultMajorVersions(), rs1.DefaultMajorVersions())
 }
 
